@@ -26,6 +26,9 @@ theorem reach_closed (p : Pattern) (hp : SafePattern p) : reachClosed p = true :
 theorem reach_safe (p : Pattern) (hp : SafePattern p) : (reach p).all Safe = true := by
   rcases hp with rfl | rfl <;> decide
 
+theorem reach_noleak (p : Pattern) (hp : SafePattern p) : (reach p).all NoLeak = true := by
+  rcases hp with rfl | rfl <;> decide
+
 theorem reach_live (p : Pattern) (hp : SafePattern p) : (reach p).all (Live p) = true := by
   rcases hp with rfl | rfl <;> decide
 
@@ -60,6 +63,13 @@ theorem shutdown_reaches_inner (p : Pattern) (hp : SafePattern p) (sched : List 
   have h := sched_in_reach p (reach_closed p hp) sched init (init_in_reach p)
   exact List.all_eq_true.mp (reach_safe p hp) _ h
 
+/-- **no inner source is leaked**: when Shutdown has completed and the runner has returned, the inner source it had
+    obtained has been shut down (also when the shutdown overtook its creation) -/
+theorem no_inner_source_leaked (p : Pattern) (hp : SafePattern p) (sched : List Tid) :
+    NoLeak (runSched p init sched) = true := by
+  have h := sched_in_reach p (reach_closed p hp) sched init (init_in_reach p)
+  exact List.all_eq_true.mp (reach_noleak p hp) _ h
+
 /-- no deadlock before Run has returned: after Shutdown was called, as long as the runner has not returned,
     some thread can take a step (so every fair maximal run ends with Run returned) -/
 theorem no_deadlock (p : Pattern) (hp : SafePattern p) (sched : List Tid) :
@@ -85,6 +95,11 @@ theorem joining_uses_safe_pattern : SafePattern BstreamVerif.Facts.joiningPatter
 theorem eternal_uses_safe_pattern : SafePattern BstreamVerif.Facts.eternalPattern := by unfold SafePattern; decide
 theorem multiplexed_uses_safe_pattern : SafePattern BstreamVerif.Facts.muxPattern := by unfold SafePattern; decide
 
+theorem multiplexed_shutdown_reaches_inner (sched : List Tid) :
+    Safe (runSched BstreamVerif.Facts.muxPattern init sched) = true ∧
+    NoLeak (runSched BstreamVerif.Facts.muxPattern init sched) = true :=
+  ⟨shutdown_reaches_inner _ multiplexed_uses_safe_pattern sched, no_inner_source_leaked _ multiplexed_uses_safe_pattern sched⟩
+
 theorem joining_shutdown_reaches_inner (sched : List Tid) :
     Safe (runSched BstreamVerif.Facts.joiningPattern init sched) = true :=
   shutdown_reaches_inner _ joining_uses_safe_pattern sched
@@ -102,5 +117,10 @@ theorem register_only_counter :
 /-- publishing the current source without the shutter lock (EternalSource's "we'll lock you some day") -/
 theorem publish_only_counter :
     Safe (runSched .publishOnly init [.R, .K, .K, .R]) = false := by decide
+
+/-- LockedInit whose failure branch shuts down only the outer source: a Shutdown that overtakes the creation of an
+    inner source leaves that source neither run nor shut down (MultiplexedSource.connectSources before the fix) -/
+theorem locked_init_leak_counter :
+    NoLeak (runSched .lockedInitLeak init [.R, .K, .R, .K, .K]) = false := by decide
 
 end BstreamVerif.Props.C12
